@@ -22,7 +22,8 @@ missing from two consecutive runs: the code is structured differently from what 
 recognises), that is a broken tie, not a harness failure: the cases are still run and judged by the
 oracle, the search runs, and the report is `no-failing-input-found` with the missing accesses named.
 
-The oracle (harness/ref/race.py) never looks at the model: after everything completed (hand-offs
+The oracle (harness/ref/race.py) never looks at the model: every GET /accessories, also one in
+progress while an update lands, must carry a representation of the characteristic; after everything completed (hand-offs
 drained, every armed coalescing timer expired — fired the way the loop fires a due TimerHandle,
 never by calling the flush routine directly), GET /accessories (twice) and GET /characteristics
 must show the last accepted write, and every connection that was subscribed before the worker's
@@ -629,6 +630,8 @@ class Exec:
             self.put(op[1], {"ev": True})
         elif name == "unsub":
             self.put(op[1], {"ev": False})
+        elif name == "lost":
+            env.conns[op[1]][0].connection_lost(None)
         elif name == "write":
             if self.w_in_update or env.loop._ready:
                 self.overlap = True
@@ -879,7 +882,14 @@ def _run_case_once(case: Dict[str, Any]) -> Dict[str, Any]:
         # the known finding of C12 (older worker value delivered after the newer write) lives here; left to C12
         verdicts = []
     else:
-        verdicts = ref.judge_timeline(payload(kind, case["init"]), timeline, database_reads, direct_reads, ev_payload)
+        inflight = [
+            (None if r == "none" else "rep")
+            for r in ex.results[: len(ex.results) - 3]
+            if r == "none" or r == "repNV" or (isinstance(r, dict) and "rep" in r)
+        ]
+        verdicts = ref.judge_timeline(
+            payload(kind, case["init"]), timeline, database_reads, direct_reads, ev_payload, inflight
+        )
         if ex.worker_outcomes != outcome_ok:
             verdicts.append(
                 (
@@ -976,6 +986,8 @@ def scenarios(kind: str) -> List[Tuple[str, Dict[str, Any]]]:
     S.append(("sub-second", base_case(kind, a, [1, 2], sub1, [["sub", 2]], [b])))
     S.append(("unsub-last", base_case(kind, a, [1], sub1, [["unsub", 1]], [b])))
     S.append(("unsub-other", base_case(kind, a, [1, 2], sub1 + [["sub", 2]], [["unsub", 2]], [b])))
+    S.append(("lost-other", base_case(kind, a, [1, 2], sub1 + [["sub", 2]], [["lost", 2]], [b])))
+    S.append(("lost-last", base_case(kind, a, [1], sub1, [["lost", 1]], [b])))
     S.append(("drain-flush", base_case(kind, a, [1], sub1, [["drain"], ["flush", 1]], [b])))
     S.append(("read-read", base_case(kind, a, [1], sub1, [["toHAP"], ["toHAP"]], [b])))
     return S
@@ -997,6 +1009,7 @@ def phased_scenarios(kind: str) -> List[Tuple[str, Dict[str, Any]]]:
         "fire-twice": [["drain"], ["fire", 1], ["fire", 1]],
         "flush-then-fire": [["drain"], ["flush", 1], ["fire", 1]],
         "unsub-other": [["drain"], ["unsub", 2], ["fire", 2], ["fire", 1]],
+        "lost-other": [["drain"], ["lost", 2], ["fire", 1], ["toHAP"]],
     }
     return [(n, base_case(kind, a, [1, 2], both, prog, [u1, u2], start="W")) for n, prog in P.items()]
 
@@ -1074,6 +1087,7 @@ _DRIVER_FUNCS = {
     "get_characteristics", "async_subscribe_client_topic", "async_send_event", "push_event", "queue_event",
     "_send_events", "_event_queue_with_active_subscriptions",
     "set_characteristics", "_notify", "client_update_value", "discard_stale_event", "discard_event",
+    "connection_lost", "close",
 }
 
 
@@ -1130,10 +1144,21 @@ def random_case(rng) -> Dict[str, Any]:
             ops.append(["drain"])
         elif r < 0.9:
             ops.append(["flush", rng.choice(conns)])
-        elif r < 0.96:
+        elif r < 0.94:
             ops.append(["fire", rng.choice(conns)])
+        elif r < 0.96:
+            ops.append(["lost", rng.choice(conns)])
         else:
             ops += [["drain"], ["write", rng.choice(conns), rng.choice(spec["good"])]]
+    gone: set = set()
+    kept: List[List[Any]] = []
+    for op in ops:  # a connection that went away makes no further requests
+        if len(op) > 1 and op[1] in gone and op[0] in ("sub", "unsub", "write", "flush", "lost"):
+            continue
+        if op[0] == "lost":
+            gone.add(op[1])
+        kept.append(op)
+    ops = kept
     worker: List[Any] = []
     cur = init
     for _ in range(rng.choice([1, 1, 2, 2, 3])):
@@ -1239,7 +1264,7 @@ def _evaluate(ctx: Ctx, cases: List[Tuple[str, Dict[str, Any]]], correspond: boo
             st.hit("op", "loop:" + op[0])
         st.hit("outcome", "interleaved" if r["interleaved"] else "serial")
         if "none" in r["impl"]["results"][: len(r["impl"]["results"]) - 3]:
-            st.hit("outcome", "inflight-read-returned-None(observation, not judged)")
+            st.hit("outcome", "read-in-progress-returned-None")
         if "L:W:cacheV" in sp and sp.count("L:R:value") >= 2 and sp[-1:] != ["L:R:value"]:
             pass
         if r["verdicts"]:
@@ -1314,9 +1339,9 @@ def run(ctx: Ctx):
         tracing_off()
     st.exhaustive = False
     st.notes.append(
-        "in-flight reads that returned None (to_HAP preempted between `if cache is not None` and `return cache`) "
-        "are predicted by the model and counted in the outcome histogram; C20 as worded judges subsequent reads "
-        "and events only"
+        "a read in progress that returns no representation (to_HAP preempted between the test of a warm cache and "
+        "a second load of the slot) is judged by the oracle (C20:read-returned-no-representation) and excluded by "
+        "the model with the single-read early return (C20_read_never_none)"
     )
 
 
